@@ -11,8 +11,8 @@ EXTENDS Cache, Json
 
 CONSTANTS Levels           \* subset of {"cache", "part"}
 
-VARIABLES sched, init0, lvl
-gvars == <<S, sched, init0, lvl>>
+VARIABLES sched, init0, lvl, hist
+gvars == <<S, sched, init0, lvl, hist>>
 
 \* limit configurations: key limit 1 / 2, size limit 3 chunks (one value fits, two do not),
 \* size limit 1 chunk (every value is larger than the whole cache)
@@ -22,6 +22,12 @@ Limits == IF LimitKind = "all"
 
 OpsOf(lv) == IF lv = "cache" THEN CacheOps ELSE PartOps
 StepRec(t, b, o) == [th |-> t, begin |-> b, kind |-> o.kind, k |-> o.k, v |-> o.v]
+\* the walk's own Invoke/Return history with the MODEL's results: used to check that the behaviours of the
+\* intended design (Deviations = {}) are linearisable under CacheLin.tla (the two specs agree)
+HistEv(t, b, o, S2) ==
+  (IF b = 1 THEN <<[t |-> "inv", c |-> t, kind |-> IF o.kind = "csets" THEN "cset" ELSE o.kind, k |-> o.k, v |-> o.v, n |-> NChunks]>>
+   ELSE <<>>) \o
+  (IF S2.pc[t] = "done" THEN <<[t |-> "ret", c |-> t, st |-> S2.res[t].st, chunks |-> S2.res[t].chunks]>> ELSE <<>>)
 
 GInit == /\ \E lv \in Levels : \E p \in Persistors : \E lim \in Limits :
             \E P \in (IF lv = "part" THEN SUBSET Keys ELSE {{}}) :
@@ -30,18 +36,20 @@ GInit == /\ \E lv \in Levels : \E p \in Persistors : \E lim \in Limits :
               /\ ~(lv = "part" /\ lim = [lk |-> "size", ln |-> 1])
               /\ S = InitState([pers |-> p, lk |-> lim.lk, ln |-> lim.ln], P)
               /\ init0 = P /\ lvl = lv
-         /\ sched = <<>>
+         /\ sched = <<>> /\ hist = <<>>
 GNext == /\ \E t \in Threads :
-              \/ \E S2 \in StepSet(S, t) : S' = S2 /\ sched' = Append(sched, StepRec(t, 0, S.op[t]))
+              \/ \E S2 \in StepSet(S, t) : /\ S' = S2 /\ sched' = Append(sched, StepRec(t, 0, S.op[t]))
+                                              /\ hist' = hist \o HistEv(t, 0, S.op[t], S2)
               \/ S.nops[t] < MaxOps /\ \E o \in OpsOf(lvl) : \E S2 \in BeginSet(S, t, o) :
-                    S' = S2 /\ sched' = Append(sched, StepRec(t, 1, o))
+                    /\ S' = S2 /\ sched' = Append(sched, StepRec(t, 1, o))
+                    /\ hist' = hist \o HistEv(t, 1, o, S2)
          /\ UNCHANGED <<init0, lvl>>
 GSpec == GInit /\ [][GNext]_gvars
 
 \* no thread can move: every level has an operation that begins without the cache mutex
 Terminal == \A t \in Threads : ~CanStep(S, t) /\ ~(S.pc[t] \in {"idle", "done"} /\ S.nops[t] < MaxOps)
 Out(w) == PrintT(ToJson([witness |-> w, level |-> lvl, pers |-> S.cfg.pers, lk |-> S.cfg.lk, ln |-> S.cfg.ln,
-                         init |-> init0, sched |-> sched]))
+                         init |-> init0, sched |-> sched, hist |-> hist]))
 Emit == IF Terminal /\ Len(sched) > 0 THEN Out("") ELSE TRUE
 
 WitnessGet == IF GetReturnsCompletedSet(S) THEN TRUE ELSE Out("InvGet") /\ FALSE
